@@ -15,6 +15,16 @@
 //! of a final) as the model enumerates them, or any property (`rm:<name>`).  The driver logs, as facts
 //! from a property-by-property comparison with the message the token derives from, which properties
 //! changed (`chg`) and which are gone (`rm`); Trace_Handshake.tla classifies the delivery from those.
+//!
+//! Strengthening round 3:
+//! * `Lie` (a configuration act, takes effect before the parties discover each other): a party ANNOUNCES a
+//!   participant GUID that differs from the one bound to its certificate in one byte (`pos`, bits `mask`):
+//!   in the c.pdata it hands to begin_handshake_request / begin_handshake_reply and in the GUID prefix the peer
+//!   passes to validate_remote_identity.  The Reset event logs, as facts, the byte positions in which announced
+//!   and certificate-bound GUID differ (`gdA` / `gdB`); the judge derives bound / unbound from them.
+//! * `via` of a delivery: "disc" (default) = the call secure_discovery.rs makes from its mirror of the state;
+//!   "api" = dispatch by message kind at the plugin API: a token whose class id says Request goes to
+//!   begin_handshake_reply in ANY state (only the plugin's own state guard protects a handshake in progress).
 
 use std::{collections::HashMap, sync::OnceLock};
 
@@ -43,6 +53,9 @@ pub struct Act {
     /// properties removed from the token after the alteration
     #[serde(default)]
     pub strip: Vec<String>,
+    /// "" | "disc" | "api", see module doc
+    #[serde(default)]
+    pub via: String,
 }
 
 fn yes() -> bool {
@@ -377,10 +390,15 @@ impl<'a> Run<'a> {
         for s in &act.strip {
             msg.remove(s);
         }
-        let call = match self.ds[to] {
-            "ReqMsg" => "begin_reply",
-            "Reply" | "Final" => "process",
-            _ => "none",
+        // dispatch by message kind at the plugin API: whatever claims to be a request goes to begin_handshake_reply
+        let call = if act.via == "api" && msg.class_id == CLASS_REQ {
+            "begin_reply"
+        } else {
+            match self.ds[to] {
+                "ReqMsg" => "begin_reply",
+                "Reply" | "Final" => "process",
+                _ => "none",
+            }
         };
         let r = match call {
             "begin_reply" => Some(self.rig.begin_reply(to, 1 - to, &msg)),
@@ -391,7 +409,8 @@ impl<'a> Run<'a> {
         let mut emit = 0;
         let mut err = String::new();
         if let Some(r) = r {
-            err = r.err.clone();
+            // diagnostic only (never in the verdict); the state guards print the whole state incl. the certificate
+            err = r.err.chars().take(200).collect();
             // outcome classes exactly as secure_discovery.rs matches them
             let acc = match (call, self.ds[to]) {
                 ("begin_reply", _) => r.ok && r.outcome == "PendingHandshakeMessage" && r.tok.is_some(),
@@ -457,7 +476,7 @@ impl<'a> Run<'a> {
             chg.push("order".into());
         }
         let diff = diff.join(",");
-        let mut e = json!({"ev":"Dlv","to":pname(to),"mid":act.mid,"k":kind,"alt":alt,"diff":diff,"chg":chg,"rm":rm,"pos":pos,"mask":mask,"call":call,"out":out,"emit":emit,"err":err});
+        let mut e = json!({"ev":"Dlv","to":pname(to),"mid":act.mid,"k":kind,"alt":alt,"diff":diff,"chg":chg,"rm":rm,"pos":pos,"mask":mask,"via":if act.via == "api" {"api"} else {"disc"},"call":call,"out":out,"emit":emit,"err":err});
         self.outputs(&mut e);
         ev.push(e);
     }
@@ -465,7 +484,7 @@ impl<'a> Run<'a> {
     /// the genuine exchange carries on: every outstanding genuine message is delivered once
     fn continuation(&mut self, ev: &mut Vec<Value>) {
         self.req(ev);
-        let d = |to: &str, mid: u32| Act { a: "Dlv".into(), to: to.into(), mid, alt: "none".into(), pos: Some(0), mask: Some(1), strip: vec![] };
+        let d = |to: &str, mid: u32| Act { a: "Dlv".into(), to: to.into(), mid, alt: "none".into(), pos: Some(0), mask: Some(1), strip: vec![], via: String::new() };
         if self.emitted[1].is_some() && self.ds[B] != "DoneR" {
             // B waits for the request, or answered something else before: the genuine request (again)
             let answered_genuine = ev.iter().any(|e| e["ev"] == "Dlv" && e["to"] == "B" && e["mid"] == 1 && e["alt"] == "none" && e["out"] == "acc");
@@ -482,14 +501,56 @@ impl<'a> Run<'a> {
     }
 }
 
+/// Party `who` announces its certificate-bound GUID with byte `pos` altered (bits `mask`; None: a seeded single
+/// bit).  The roles follow from the order of the ANNOUNCED prefixes (validate_remote_identity), so only masks
+/// that keep A below B are used; with none left the party stays honest.
+fn apply_lie(rig: &mut AuthRig, who: usize, pos: usize, mask: Option<u8>, rng: &mut StdRng) {
+    let bound = rig.guid(who);
+    let other = rig.guid(1 - who);
+    let pos = pos % 16;
+    let first = rng.gen_range(0..8);
+    let masks: Vec<u8> = match mask {
+        Some(m) if m != 0 => vec![m],
+        _ => (0..8).map(|b| 1u8 << ((first + b) % 8)).collect(),
+    };
+    for m in masks {
+        let mut ann = bound;
+        ann[pos] ^= m;
+        let keeps_roles = if who == A { ann[..12] < other[..12] } else { other[..12] < ann[..12] };
+        if keeps_roles {
+            rig.announce_guid(who, ann);
+            return;
+        }
+    }
+}
+
+fn hex(b: &[u8]) -> String {
+    b.iter().map(|x| format!("{x:02x}")).collect()
+}
+
 pub fn run_one(k: usize, spec: &ARunSpec, ev: &mut Vec<Value>) -> Vec<Vec<u8>> {
     let fx = FX.get().expect("fixtures not loaded");
     let old = old_session(fx);
     let mut rig = new_rig(fx);
+    let seed = *SEED.get().unwrap_or(&1);
+    let mut rng = StdRng::seed_from_u64(seed ^ spec.seed ^ ((k as u64) << 20) ^ 0xC19);
+    // configuration: what each party announces as its GUID (at most one lie per party, before discovery)
+    let bound = [rig.guid(A), rig.guid(B)];
+    let mut lied = [false, false];
+    for act in spec.acts.iter().filter(|a| a.a == "Lie") {
+        let who = if act.to == "A" { A } else { B };
+        if !lied[who] {
+            lied[who] = true;
+            apply_lie(&mut rig, who, act.pos.unwrap_or(0), act.mask, &mut rng);
+        }
+    }
+    let ann = [rig.guid(A), rig.guid(B)];
+    // facts: byte positions in which the announced GUID differs from the certificate-bound one
+    let gd = |p: usize| -> Vec<usize> { (0..16).filter(|i| ann[p][*i] != bound[p][*i]).collect() };
     let meet_a = rig.meet(A, B);
     let meet_b = rig.meet(B, A);
-    ev.push(json!({"ev":"Reset","run":k,"meetA":meet_a,"meetB":meet_b}));
-    let seed = *SEED.get().unwrap_or(&1);
+    ev.push(json!({"ev":"Reset","run":k,"meetA":meet_a,"meetB":meet_b,"gdA":gd(A),"gdB":gd(B),
+                   "dbg":{"boundA":hex(&bound[A]),"annA":hex(&ann[A]),"boundB":hex(&bound[B]),"annB":hex(&ann[B])}}));
     let mut run = Run {
         fx,
         old,
@@ -497,7 +558,7 @@ pub fn run_one(k: usize, spec: &ARunSpec, ev: &mut Vec<Value>) -> Vec<Vec<u8>> {
         ds: ["ReqSend", "ReqMsg"],
         emitted: [None, None, None, None],
         secrets: vec![],
-        rng: StdRng::seed_from_u64(seed ^ spec.seed ^ ((k as u64) << 20) ^ 0xC19),
+        rng,
     };
     for act in &spec.acts {
         match act.a.as_str() {
@@ -516,7 +577,17 @@ pub fn run_one(k: usize, spec: &ARunSpec, ev: &mut Vec<Value>) -> Vec<Vec<u8>> {
 }
 
 fn dl(to: &str, mid: u32, alt: &str, pos: Option<usize>, mask: Option<u8>) -> Act {
-    Act { a: "Dlv".into(), to: to.into(), mid, alt: alt.into(), pos, mask, strip: vec![] }
+    Act { a: "Dlv".into(), to: to.into(), mid, alt: alt.into(), pos, mask, strip: vec![], via: String::new() }
+}
+
+/// the same delivery handed to the plugin by message kind (a request always to begin_handshake_reply)
+fn api(a: Act) -> Act {
+    Act { via: "api".into(), ..a }
+}
+
+/// party `to` announces its GUID with byte `pos` altered
+fn lie(to: &str, pos: usize, mask: Option<u8>) -> Act {
+    Act { a: "Lie".into(), to: to.into(), mid: 0, alt: "none".into(), pos: Some(pos), mask, strip: vec![], via: String::new() }
 }
 
 /// the same delivery with properties removed
@@ -525,7 +596,7 @@ fn dls(to: &str, mid: u32, alt: &str, pos: Option<usize>, mask: Option<u8>, stri
 }
 
 fn rq() -> Act {
-    Act { a: "Req".into(), to: "A".into(), mid: 0, alt: "none".into(), pos: None, mask: None, strip: vec![] }
+    Act { a: "Req".into(), to: "A".into(), mid: 0, alt: "none".into(), pos: None, mask: None, strip: vec![], via: String::new() }
 }
 
 /// all non-empty subsets of the sender-optional properties of a message kind
@@ -539,7 +610,9 @@ fn prefix_for(mid: u32) -> Vec<Act> {
     match mid {
         1 => vec![rq()],
         2 => vec![rq(), dl("B", 1, "none", None, None)],
-        _ => vec![rq(), dl("B", 1, "none", None, None), dl("A", 2, "none", None, None)],
+        3 => vec![rq(), dl("B", 1, "none", None, None), dl("A", 2, "none", None, None)],
+        // the whole exchange
+        _ => vec![rq(), dl("B", 1, "none", None, None), dl("A", 2, "none", None, None), dl("B", 3, "none", None, None)],
     }
 }
 
@@ -640,6 +713,40 @@ fn sweep_specs(fx: &Fx, bits: usize, rng: &mut StdRng) -> Vec<ARunSpec> {
             }
         }
     }
+    // ---- announced GUID (strengthening round 3): either party announces its certificate-bound GUID with one bit
+    // of one byte flipped -- every bit of every byte -- and the plain exchange follows (continuation); the same
+    // (one seeded bit per byte) with the optional hashes removed from the message that carries the GUID
+    for who in ["A", "B"] {
+        for pos in 0..16usize {
+            for bit in 0..8 {
+                v.push(ARunSpec { acts: vec![lie(who, pos, Some(1u8 << bit))], seed: 0, cont: true });
+            }
+            let mut acts = vec![lie(who, pos, None), rq()];
+            if who == "A" {
+                acts.push(dls("B", 1, "none", None, None, &["hash_c1"]));
+            } else {
+                acts.push(dl("B", 1, "none", None, None));
+                acts.push(dls("A", 2, "none", None, None, &["hash_c1", "hash_c2"]));
+            }
+            v.push(ARunSpec { acts, seed: pos as u64, cont: true });
+        }
+    }
+    // ---- dispatch by message kind: a request (this / the earlier session; unchanged, altered where the replier
+    // cannot tell, detectably altered, without hash_c1) handed to begin_handshake_reply of either party at every
+    // point of the exchange and after it
+    for point in [1u32, 2, 3, 4] {
+        for m2 in [1u32, 11] {
+            for target in ["A", "B"] {
+                for alt in ["none", "b:dh1", "b:challenge1", "det"] {
+                    for st in [&[][..], &["hash_c1"][..]] {
+                        let mut acts = prefix_for(point);
+                        acts.push(api(dls(target, m2, alt, None, None, st)));
+                        v.push(ARunSpec { acts, seed: v.len() as u64, cont: true });
+                    }
+                }
+            }
+        }
+    }
     // composite forgeries: a foreign-CA / unbound insider initiator runs the whole exchange against B
     for (a1, a2) in [("foreign_full", "forge_final_foreign"), ("third_unbound", "forge_final_third"), ("foreign_cert", "forge_final_foreign")] {
         for base in [1u32, 11] {
@@ -655,6 +762,10 @@ fn sweep_specs(fx: &Fx, bits: usize, rng: &mut StdRng) -> Vec<ARunSpec> {
 fn random_schedule(rng: &mut StdRng, events: usize) -> ARunSpec {
     let n = rng.gen_range(1..=events.max(1));
     let mut acts = vec![];
+    // one run in eight: a party announces a GUID other than its bound one
+    if rng.gen_range(0..8) == 0 {
+        acts.push(lie(["A", "B"][rng.gen_range(0..2)], rng.gen_range(0..16), None));
+    }
     for _ in 0..n {
         let r = rng.gen_range(0..100);
         if r < 12 {
@@ -672,6 +783,10 @@ fn random_schedule(rng: &mut StdRng, events: usize) -> ARunSpec {
             _ => "det".to_string(),
         };
         let mut act = dl(to, mid, &alt, None, None);
+        // four requests in ten reach the plugin by message kind
+        if kind == "req" && rng.gen_range(0..10) < 4 {
+            act.via = "api".into();
+        }
         // a third of the deliveries lose a random set of sender-optional properties
         if rng.gen_range(0..100) < 33 {
             act.strip = optional_of(kind).iter().filter(|_| rng.gen_range(0..100) < 50).map(|p| p.to_string()).collect();
